@@ -15,7 +15,7 @@ from ..gen import triggers
 
 SUBJECT_EXCLUDED = {"lazy-ignores"}  # its subject is the suppression comments themselves
 CM = {"py": "#", "ts": "//", "js": "//", "rs": "//"}
-FORMS = ["same-line", "next-line", "block", "file@1", "file@5", "file@10", "file@11", "file@40", "thailintignore", "config-ignore", "linter-ignore"]
+FORMS = ["same-line", "next-line", "block", "block2", "file@1", "file@5", "file@10", "file@11", "file@40", "thailintignore", "config-ignore", "linter-ignore"]
 SPELLINGS = ["full", "prefix", "wildcard", "upper", "mixed-list", "bare", "wildcard-upper", "wildcard-mixed-case", "prefix-mixed-case", "full-mixed-case"]
 NEG_SPELLINGS = ["other-rule", "other-prefix"]
 SECTION = {"pipeline": "collection-pipeline", "perf": "performance", "string-concat-loop": "performance", "regex-in-loop": "performance",
@@ -75,7 +75,7 @@ def directive(cm, form, names):
     if form in ("same-line", "next-line"):
         word = "ignore" if form == "same-line" else "ignore-next-line"
         return "%s thailint: %s%s" % (cm, word, "" if names is None else "[%s]" % ",".join(names))
-    if form == "block":
+    if form in ("block", "block2"):
         return "%s thailint: ignore-start%s" % (cm, "" if names is None else " " + " ".join(names)), "%s thailint: ignore-end" % cm
     if form.startswith("file@"):
         return "%s thailint: ignore-file%s" % (cm, "" if names is None else "[%s]" % ",".join(names))
@@ -114,6 +114,17 @@ def apply(files, f, line, form, names, placement="on"):
         lines.insert(s - 1, ind + a)
         out[f] = "\n".join(lines)
         return out, (lambda l: l + 1 if s <= l <= e else (l + 2 if l > e else l)), (lambda l: s <= l <= e)
+    if form == "block2":
+        # the target block is the SECOND properly closed block of the file: a first block for the same rule encloses a plain comment above
+        a, b = directive(cm, "block", names)
+        decoy = [a, "%s nothing to suppress in here" % cm, b]
+        pre = dict(files)
+        pre[f] = "\n".join(decoy + lines)
+        res = apply(pre, f, line + 3, "block", names, placement)
+        if res is None:
+            return None
+        out2, shift2, scope2 = res
+        return out2, (lambda l: shift2(l + 3)), (lambda l: scope2(l + 3))
     if form.startswith("file@"):
         k = int(form.split("@")[1])
         while len(lines) < k:
@@ -247,10 +258,10 @@ def run_flavour(ctx, rng, files, flavour, matrix):
             forms = list(FORMS)
             if c == "file-placement":
                 # the finding has no construct line (line 1 by convention): only same-line@1, file-level and pattern forms apply
-                forms = [x for x in forms if x not in ("next-line", "block")]
+                forms = [x for x in forms if x not in ("next-line", "block", "block2")]
             if c == "file-header":
                 # header-sensitive: a comment inserted at the top of the file changes the header itself
-                forms = [x for x in forms if x not in ("next-line", "block", "file@1")]
+                forms = [x for x in forms if x not in ("next-line", "block", "block2", "file@1")]
             if flavour:
                 forms = [x for x in forms if x in ("same-line", "next-line", "block", "file@10", "file@11")]
             for form in forms:
@@ -269,7 +280,7 @@ def run_flavour(ctx, rng, files, flavour, matrix):
                     spellings = ["n/a"]
                 for sp in spellings:
                     cells.append({"cmd": c, "witness": w, "file": f, "lang": lang, "target": tv, "form": form, "spelling": sp, "placement": "on"})
-                if form in ("same-line", "next-line", "block"):
+                if form in ("same-line", "next-line", "block", "block2"):
                     cells.append({"cmd": c, "witness": w, "file": f, "lang": lang, "target": tv, "form": form, "spelling": "other-rule", "placement": "on"})
                     cells.append({"cmd": c, "witness": w, "file": f, "lang": lang, "target": tv, "form": form, "spelling": "full", "placement": "away"})
                     if not ctx.quick:
